@@ -71,6 +71,11 @@ def main():
             st = we.blame_step(p, rr["msg"])
             shape = we.type_class(st["t"]) if st else "?"
             gu = ":generic-union-spelling" if p.style.get("generic_unions") else ""
+            if "cpp" in name and st is not None:
+                us = []
+                we._unions(st["t"], us)
+                if any(we.type_class(u) in we.cpp_variant_tag_clash(p) for u in us):
+                    gu += ":one-cpp-variant-two-tag-sets"
             c.violation("C03:%s:hop%d:%s%s" % (name.replace(" ", ""), hop, shape, gu), rr["msg"],
                         {"package_model": open(os.path.join(p.root, "model", "model.yml")).read(), "run": r, "chain": name, "hop": hop,
                          "stderr": rr.get("stderr"), "input_hex": open(rr["in"], "rb").read().hex()[-6000:] if "in" in rr else None,
